@@ -231,3 +231,19 @@ def run(ctx: Context) -> None:  # noqa: F811
 
     ctx.rep.rule('C11.R6', 'proxy-hop configuration: the connection to the proxy gets the proxy origin and the proxy TLS context and never the origin protocol flags (it speaks HTTP/1.1 CONNECT); the tunnelled / SOCKS connection gets the remote origin and the origin flags')
     plumb.plumbing(ctx, 'C11.R6', ['http1', 'http2', 'proxy_ssl_context', 'ssl_context', 'proxy_origin', 'remote_origin', 'origin'])
+
+
+
+_core_run_r7 = run
+
+
+def run(ctx: Context) -> None:  # noqa: F811
+    _core_run_r7(ctx)
+    from . import c10
+
+    if ctx.rep._borrow is not None:
+        return          # already running as a lender: no chains
+    with ctx.rep.borrow({"C10.R3": ("C11.R7", "an origin that needs TLS behind an HTTP proxy is reached through a CONNECT tunnel, never by forwarding its request (target, credentials, body) "
+                                               "to the proxy in clear - the scheme x proxy matrix, cells of the TLS schemes:",
+                                    lambda key, detail: "scheme=https" in key or "scheme=wss" in key)}):
+        c10.run(ctx)
